@@ -200,9 +200,6 @@ pub fn isolated(case: &str, run: fn(&str) -> Out) -> Result<Out, i32> {
     }
 }
 pub const F18: &str = "F18-commitment-slice-length";
-pub const F20: &str = "F20-blind-zero-value";
-pub const F21: &str = "F21-verify-zero-issuance";
-pub const F22: &str = "F22-surjection-inputs-abort";
 pub const F23: &str = "F23-rangeproof-full-range";
 pub const F27: &str = "F27-serde-commitment-length";
 /// input class of F18 at the PSET level: some input/output map carries a commitment-typed proprietary field
@@ -943,7 +940,7 @@ fn eval_explore(kind: &str, w: &[&str]) -> Out {
             let mut tx = Transaction { version: 2, lock_time: LockTime::ZERO, input: vec![{ let mut i = TxIn::default(); i.previous_output = OutPoint::new(txid(9), 0); i }], output: vec![o] };
             let sec = elements::TxOutSecrets::new(asset(3), confidential::AssetBlindingFactor::zero(), v, confidential::ValueBlindingFactor::zero());
             let (_, obs) = guard(|| { let mut rng = <ChaCha20Rng as rand::SeedableRng>::from_seed([5u8; 32]); let _ = tx.blind(&mut rng, secp, &[sec], false); });
-            finish("total".into(), &obs, if v == 0 { Some((F20, "secp256k1-zkp", "failed to create pedersen commitment")) } else { None }, None)
+            { let _ = v; finish("total".into(), &obs, None, None) }      // F20 fixed: no known finding any more
         }
         "x-verify" => {
             // N2/F21: verify_tx_amt_proofs on a decoded transaction with explicit utxos
@@ -953,7 +950,7 @@ fn eval_explore(kind: &str, w: &[&str]) -> Out {
             let utxos: Vec<TxOut> = tx.input.iter().enumerate().map(|(k, _)| { let mut o = TxOut::new_fee(1000 + k as u64, asset(3)); o.script_pubkey = Script::from(vec![0x51]); o }).collect();
             let zero_iss = tx.input.iter().any(|i| i.has_issuance() && (i.asset_issuance.amount == confidential::Value::Explicit(0) || i.asset_issuance.inflation_keys == confidential::Value::Explicit(0)));
             let (_, obs) = guard(|| { let _ = tx.verify_tx_amt_proofs(zkp::SECP256K1, &utxos); });
-            finish("total".into(), &obs, if zero_iss { Some((F21, "secp256k1-zkp", "failed to create pedersen commitment")) } else { None }, None)
+            { let _ = zero_iss; finish("total".into(), &obs, None, None) }      // F21 fixed: no known finding any more
         }
         "x-surj" => {
             // N3/F22: more than 256 surjection inputs make libsecp256k1-zkp's illegal-argument callback abort the process
@@ -1109,8 +1106,6 @@ pub fn eval(case: &str) -> Out {
                 std::str::from_utf8(&raw).ok().and_then(|t| BASE64_STANDARD.decode(t).ok()).map(|d| pset_short_commitment(&d)).unwrap_or(false) } });
             match isolated(case, eval_explore_case) {
                 Ok(mut o) => { if class && o.pred_fail.is_none() && o.result == "total+" { o.pred_fail = Some(format!("{}|a PSET whose commitment field is not 33 bytes long was accepted (the bytes behind the slice were read)", F18)); } if o.result == "total+" { o.result = "total".into(); } o }
-                Err(sig) if k == "x-surj" && sig == 6 && w.get(2).and_then(|n| n.parse::<usize>().ok()).map(|n| n > 256).unwrap_or(false) =>
-                    Out { result: "total".into(), pred_fail: Some(format!("{}|the process was aborted (signal 6) by libsecp256k1-zkp's illegal-argument callback: more than 256 surjection inputs reach SurjectionProof::new unchecked", F22)) },
                 Err(sig) => crash_out(sig, class),
             }
         }
